@@ -26,6 +26,21 @@ NOTES = ("Every check: python3 run.py Cxx --tier quick|thorough. Lean theorems a
 NOT_APPLICABLE = {}
 
 CHECKS = {
+    "C02": {
+        "text": "Lean theorems over a MiniGo statement language with opaque primitives (GV.Ctrl) and a transcription of the flattened "
+                "switch-case translation (caseCounter numbering, if-chains, loops with blocking post statements, labelled break/continue, "
+                "switch, the resume block of a blocking call): flatten_correct - for every body, store and suspension schedule (any call "
+                "suspending any number of times) the flattened machine with frame save/restore ends in the reference final store and trace "
+                "(block-compilation lemma + segmentation lemma); saved-frame completeness with a proved counterexample for a dropped local; "
+                "the blocking set computed by the propagation loop is the least fixed point for every visiting order. Tied by generated "
+                "programs P (no yields) and P' (yields at 13 kinds of call, loop posts, sub-expressions; one artefact, all/random schedule "
+                "subsets via an environment variable) under Node vs the Lean machine vs native Go, and by scans of the emitted case "
+                "skeleton, the $f/$restore lists and Decl.Blocking of the real archives.",
+        "note": "Not in the theorem (programs only): goto, deferred calls and blocking returns, &&/||/argument flattening, call depth is "
+                "compositional (a callee is abstracted as effect + number of suspensions). The full expression translator inside flattened "
+                "bodies is not modelled.",
+        "technique": "Lean 4 proof (compiler-correctness simulation with continuations; least fixed point) + differential program runs over schedule subsets + artefact structure ties",
+    },
     "C16": {
         "text": "Lean theorems: the bijective base-26 short-name generator is injective; package-level (upper-case) and local (lower-case) "
                 "short names are disjoint and never reserved; for every history of nested function contexts the names in scope are pairwise "
